@@ -231,7 +231,7 @@ def main(args):
     r = tlc.run("mc/MC_Interleave.tla", cfg="mc/MC_Interleave.cfg", workers=16, timeout=3000, env={"SCEN_FILE": sf}, heap="6g")
     if r.violation:
         raise tlc.MachineryFailure("interleaving model violated: " + r.violation)
-    ck.add_tlc(r)
+    ck.add_tlc(r, "MC_Interleave")
     rn = tlc.run("mc/MC_Interleave.tla", cfg="mc/MC_Interleave_neg.cfg", workers=8, timeout=3000, env={"SCEN_FILE": sf},
                  expect_violation=True)
     tlc.cleanup("c18")
@@ -294,7 +294,7 @@ def main(args):
     tlc.cleanup("c18s")
     if rs.violation:
         raise tlc.MachineryFailure("event-level schedule model violated: " + rs.violation)
-    ck.add_tlc(rs)
+    ck.add_tlc(rs, "MC_Sched")
     for ex in rs.exports:
         gi, (d, grp, table) = two[ex["g"] - 1]
         want = solos.get(gi) or [solo(d, m) for m in grp]
